@@ -87,7 +87,17 @@ func TestProp_Listener(t *testing.T) {
 			r := vkit.MintRoot(time.Now().Add(-time.Hour), time.Now().Add(time.Hour))
 			baseTLS = &tls.Config{Certificates: []tls.Certificate{{Certificate: [][]byte{r.Cert.Raw}, PrivateKey: r.Priv}}, NextProtos: []string{"h2", "base"}}
 		}
-		rig := vkit.NewRig(w, vkit.RigConfig{BaseTLS: baseTLS})
+		// the application may give the listener certificate-verification options of its
+		// own (here: the same ones the library would use); they decide how a chain is
+		// verified, not WHOSE certificate must be presented
+		rcfg := vkit.RigConfig{BaseTLS: baseTLS}
+		if rapid.IntRange(0, 2).Draw(t, "listenerHasOwnVerifyOptions") == 0 {
+			rcfg.Options = w.O(nodeenrollment.WithTlsVerifyOptionsFunc(func(pool *x509.CertPool) x509.VerifyOptions {
+				return x509.VerifyOptions{Roots: pool, KeyUsages: []x509.ExtKeyUsage{x509.ExtKeyUsageClientAuth, x509.ExtKeyUsageServerAuth}}
+			}))
+			rec.Count("listeners_with_own_verify_options", 1)
+		}
+		rig := vkit.NewRig(w, rcfg)
 		defer rig.Close()
 		serverRoots := w.Roots()
 		rootCerts := []*x509.Certificate{}
